@@ -26,4 +26,11 @@ var specs = map[string][]string{
 		"?meta:ExposureBias.MarshalText",
 		"imagetype:ImageType.String", "imagetype:FromString",
 	},
+	// Exif reader: make / model normalisation tables
+	"exif": {
+		"exif2/ifds:$mapStringCameraMake", "exif2/ifds:CameraMake.String",
+		"exif2/ifds/mknote/canon:$mapStringCameraModel", "exif2/ifds/mknote/canon:CameraModel.String",
+		"exif2/ifds/mknote/apple:$mapAppleCameraModel", "exif2/ifds/mknote/apple:CameraModel.String",
+		"exif2/tag:Type.Size", "exif2/tag:Type.IsValid",
+	},
 }
